@@ -91,4 +91,12 @@ PROPS = {
         ],
         "assumptions": ["term buckets with equal frequency may be kept or dropped in any order by `size`"],
     },
+    "C06": {
+        "trusted_base": [
+            "proved part: the C01 model (typing + step functions); see C01's trusted base",
+            "NOT modelled, exercised only: null-producing steps, set/increment, aggregations, mark/jump, server edit handlers, BulkAdd stream switching, the optimiser's value extraction; the hostile-request generator and the worker sub-process classification (rows / error / crash / hang, crash and hang re-confirmed by running the request alone) are the whole assurance there",
+            "requests reach the handlers through the verif-tagged server constructor and fake gRPC streams: the gRPC/HTTP transport layers are not exercised",
+        ],
+        "assumptions": ["a loop program (mark/jump) whose counter bounds the iteration depth; unbounded loops over cyclic data do not terminate by construction and are not requests this check sends"],
+    },
 }
